@@ -19,6 +19,7 @@ type Profile struct {
 	Reopen     int  // percentage of transactions followed by a restart (crash or clean) inside the history
 	OpenMid    int  // percentage of (non-final) transactions that are left in flight while later transactions run and commit; at most two per history
 	Huge       int  // percentage of histories that contain one transaction writing more log (about 600 KB) than the log buffer holds (516 KB) while the pool is large enough not to evict: the buffer-full path of the log manager
+	Churn      int  // percentage of histories whose setup inserts 400 rows and deletes 390 of them again (index nodes run empty and are deallocated), followed by a restart after the first transaction and by page-growing inserts (recycled page ids)
 	PostCrash  int  // percentage of histories whose crash images are, after recovery and new statements, crashed and recovered once more
 	Bulk       int  // percentage of statements that touch many pages at once (8-24 long rows inserted / 8-24 rows enlarged / up to 24 rows deleted), so that one open transaction dirties more pages than the pool holds
 }
@@ -177,7 +178,29 @@ func GenHistory(t *rapid.T, p Profile) *History {
 	h.MaxCrashPoints = 60
 	h.PostCrash = p.PostCrash > 0 && rapid.IntRange(0, 99).Draw(t, "postcrash") < p.PostCrash
 	g := &genState{live: map[string][]int32{}, bulk: p.Bulk}
+	churn := p.Churn > 0 && rapid.IntRange(0, 99).Draw(t, "churn") < p.Churn
+	if churn {
+		def := &h.Tables[0]
+		names := []string{"id", "v", "n"}
+		for b := 0; b < 400; b += 40 {
+			st := dbh.Stmt{Kind: "insert", Table: def.Name, Cols: names}
+			for i := 0; i < 40; i++ {
+				g.nextID++
+				st.Rows = append(st.Rows, dbh.Row{dbh.IntV(g.nextID), dbh.StrV(fmt.Sprintf("w%d-", g.val())), dbh.IntV(g.val())})
+				if g.nextID <= 10 {
+					g.live[def.Name] = append(g.live[def.Name], g.nextID)
+				}
+			}
+			h.Setup = append(h.Setup, st)
+		}
+		h.Setup = append(h.Setup, dbh.Stmt{Kind: "delete", Table: def.Name, Where: dbh.And(dbh.Leaf("id", ">=", dbh.IntV(11)), dbh.Leaf("id", "<=", dbh.IntV(400)))})
+		g.bulk = 35
+		h.KB = 400
+	}
 	nsetup := rapid.SampledFrom([]int{0, 2, 5, 12, 30}).Draw(t, "nsetup")
+	if churn {
+		nsetup = 0
+	}
 	if p.SameRows && nsetup > 5 {
 		nsetup = 5
 	}
@@ -277,6 +300,9 @@ func GenHistory(t *rapid.T, p Profile) *History {
 			if nOpenMid > 0 {
 				spec.Reopen = "crash" // a clean shutdown waits for open transactions
 			}
+		}
+		if churn && i == 0 && spec.End != "open" {
+			spec.Reopen = rapid.SampledFrom([]string{"crash", "clean"}).Draw(t, "churnreopen")
 		}
 		h.Txns = append(h.Txns, spec)
 	}
